@@ -313,7 +313,7 @@ class SymText:
         raise core.PathCut('unsupported: digit count of symbolic integer not provable')
 
     def __getitem__(self, k):
-        if k == 0 and not (isinstance(self.val, SymReal) and self.val.is_int):
+        if isinstance(k, int) and k == 0:
             return SymChar0(self.val)
         nd = self._ndigits()
         idx = range(nd)[k]
@@ -342,10 +342,16 @@ class SymText:
 
 
 class SymChar0:
-    """First character of str(x) for a symbolic real x: only the sign test is supported."""
+    """First character of str(x) for a symbolic number x: the sign test, and (for non-negative integers with a provable digit
+    count) the leading digit."""
 
     def __init__(self, val):
         self.val = val
+
+    def to_int(self):
+        t = SymText(self.val)
+        nd = t._ndigits()
+        return core.sym_floor(self.val / (10 ** (nd - 1)))
 
     def __eq__(self, o):
         if o == '-':
